@@ -148,6 +148,8 @@ impl GameSpy3 {
         let mut values: Vec<Vec<u8>> = Vec::new();
 
         let mut reached_expected_packets_size = false;
+        let mut expected_packets: Option<usize> = None;
+        let mut received_packets = 0;
 
         while !reached_expected_packets_size {
             let received_data = self.receive(None, 0)?;
@@ -167,15 +169,24 @@ impl GameSpy3 {
             let packet_id = (id & 0x7f) as usize;
             buf.move_cursor(1)?; //unknown byte regarding packet no.
 
-            if is_last && packet_id + 1 != values.len() {
-                reached_expected_packets_size = true;
+            // The packet flagged as last tells how many packets there are, they can arrive in
+            // any order (and more than once).
+            if is_last {
+                expected_packets = Some(packet_id + 1);
             }
 
             while values.len() <= packet_id {
                 values.push(Vec::new());
             }
 
+            if values[packet_id].is_empty() {
+                received_packets += 1;
+            }
             values[packet_id] = buf.remaining_bytes().to_vec();
+
+            if expected_packets.is_some_and(|count| received_packets >= count) {
+                reached_expected_packets_size = true;
+            }
         }
 
         if values.iter().any(Vec::is_empty) {
